@@ -15,6 +15,7 @@ func installHooks(s *Sim) {
 		return s.dial(ctx, "olla", "10.0.0.1", addr, s.engineConnTimeout)
 	}
 	verifhook.YieldFn = s.yield
+	verifhook.FaultFn = s.fault
 	verifhook.PoolGetFn = s.poolGet
 	verifhook.PoolPutFn = s.poolPut
 	verifhook.OrderFn = s.order
@@ -23,6 +24,7 @@ func installHooks(s *Sim) {
 func uninstallHooks() {
 	verifhook.DialFn = nil
 	verifhook.YieldFn = nil
+	verifhook.FaultFn = nil
 	verifhook.PoolGetFn = nil
 	verifhook.PoolPutFn = nil
 	verifhook.OrderFn = nil
